@@ -256,13 +256,18 @@ class Actors:
         elif k == 'X':
             # a second attempt of a Running job reports job_started (schedule_job posted the job to a worker, its procedure call was lost and
             # the job was scheduled again): the real mark_job_started records it as a non-current attempt = an orphan for loop O
-            rj = self.running_jobs()
+            # (pool jobs only: a job-private instance belongs to exactly one attempt of one job)
+            rj = [j for j in self.running_jobs() if j['inst_coll'] != 'job-private']
             live = [i for i in w.instances.values() if i.state == 'active']
             if rj and live:
                 j = self.rng.choice(rj)
                 cur = [x['instance_name'] for x in w.db.tables['attempts'] if (x['batch_id'], x['job_id'], x['attempt_id']) ==
                        (j['batch_id'], j['job_id'], j['attempt_id'])]
-                other = [i for i in live if i.name not in cur] or live
+                # a job-private job only ever runs on job-private instances (one per attempt); a pool job on pool instances
+                kind = [i for i in live if i.inst_coll.is_pool == (j['inst_coll'] != 'job-private')]
+                other = [i for i in kind if i.name not in cur] or kind
+                if not other:
+                    return
                 self.n_orphans += 1
                 w.run(self._safe('job_started(orphan)', w.dj.mark_job_started(w.app, j['batch_id'], j['job_id'], f'orphan{self.n_orphans}',
                                                                            self.rng.choice(other), self.ts - 5, [])))
@@ -371,6 +376,34 @@ def cancel_scope(w, p: View, v: View) -> Optional[Tuple[str, str]]:
             return ('canceller-touched-job-outside-cancelled-subtree',
                     f'canceller loop {step!r} moved job {k} — {where}, group {o["job_group_id"]} — from {o["state"]} to {j["state"]} '
                     f'(cancelled groups: {sorted(p.cancelled)})')
+    return None
+
+
+def uncommitted_untouched(w, p: View, v: View) -> Optional[Tuple[str, str]]:
+    """C41 for every step of the driver's loops: the job rows of updates that are not committed do not change, a batch without committed
+    jobs keeps zero tallies, and the user's counters stay what a recount over the COMMITTED jobs gives"""
+    from .oracles import recount_user, stored_user
+    step = getattr(w, 'last_actor_step', '')
+    for k, o in p.jobs.items():
+        if p.committed(k[0], o['update_id']):
+            continue
+        j = v.jobs.get(k)
+        if j is None or (j['state'], j['attempt_id'], j['cancelled'], j['n_pending_parents']) != \
+                (o['state'], o['attempt_id'], o['cancelled'], o['n_pending_parents']):
+            return ('driver-loop-touched-job-of-uncommitted-update',
+                    f'step {step!r} changed job {k} of update {o["update_id"]}, which is not committed: '
+                    f'{(o["state"], o["attempt_id"], o["cancelled"])} -> {(j["state"], j["attempt_id"], j["cancelled"]) if j else None}')
+    for b, bt in v.batches.items():
+        if bt['n_jobs'] == 0:
+            for (bb, g), t in v.tallies.items():
+                if bb == b and (t['n_completed'] or t['n_succeeded'] or t['n_failed'] or t['n_cancelled']):
+                    return ('tallies-of-batch-without-committed-jobs', f'batch {b} has no committed job but group {g} tallies '
+                                                                       f'{[t["n_completed"], t["n_succeeded"], t["n_failed"], t["n_cancelled"]]}')
+    want, have = recount_user(v), stored_user(v)
+    if want != have:
+        kk = next(x for x in sorted(set(want) | set(have), key=str) if want.get(x) != have.get(x))
+        return ('user-counters-moved-by-uncommitted-update', f'after step {step!r} user_inst_coll_resources{kk} = {have.get(kk)}, recount over '
+                                                             f'committed jobs {want.get(kk)}')
     return None
 
 
